@@ -2,7 +2,6 @@ package harness
 
 import (
 	"context"
-	"errors"
 	"time"
 
 	"github.com/klev-dev/klevdb"
@@ -140,7 +139,7 @@ func (r *Run) execHelper(ctx context.Context, op *Op) {
 	}
 	r.applyDeleted(op.K, []int64{hc.Bound}, fromKs(got), gotOffs, size, err)
 	r.probe(op.K)
-	if err != nil && !r.stopped() && !errors.Is(err, errBackoffStop) {
+	if err != nil && !r.stopped() && !interruptedByHarness(err) {
 		r.unexpected(op.K, err)
 	}
 }
